@@ -366,9 +366,21 @@ def run_check(pid: str, tier: str, seed: int) -> int:
     # correspondence + oracle (outside the build lock; the driver run only reads .olean files)
     try:
         mod.run(ctx)
-    except Exception:
-        print("harness crashed:\n" + traceback.format_exc(), file=sys.stderr)
-        return 2
+    except Exception as e:
+        tb = traceback.format_exc()
+        frames = traceback.extract_tb(e.__traceback__)
+        last_h = max((i for i, f in enumerate(frames) if os.path.abspath(f.filename).startswith(VERIF + os.sep)), default=-1)
+        in_code = any(os.path.abspath(f.filename).startswith(os.path.abspath(REPO) + os.sep) for f in frames[last_h + 1:])
+        if not in_code:
+            print("harness crashed:\n" + tb, file=sys.stderr)
+            return 2
+        # The code under test raised where the harness (which passes on the unchanged tree) expects it not to: the
+        # correspondence between the code and what the harness knows about it is broken at this call.
+        hf = next((f for f in reversed(frames) if "/tools/props/" in f.filename), None)
+        ctx.mismatch(stream="harness", detail="the code under test raised an exception the harness does not expect here",
+                     exception=f"{type(e).__name__}: {e}"[:300],
+                     raised_at=f"{frames[-1].filename}:{frames[-1].lineno} in {frames[-1].name}",
+                     harness_call=(f"{hf.filename}:{hf.lineno}: {hf.line}" if hf else None), traceback=tb[-3000:])
     if (ctx.broken or ctx.mismatches) and not ctx.violations and hasattr(mod, "search"):
         try:
             mod.search(ctx)
